@@ -530,7 +530,8 @@ def check_cookie_memo_invalidation(P, R, rid, why='a cookie is read back from th
     for t in [n for n in oc.cfg.nodes if n.kind == 'test' and n.ast is not None]:
         if any(isinstance(c, ast.Call) and call_attr(c) == 'startswith' and c.args and is_const(c.args[0], 'HTTP_') for c in ast.walk(t.ast)):
             for m_ in T.succ_by_label(t, 'true'):
-                if m_.kind == 'stmt' and m_.ast is not None and any(isinstance(x, ast.Constant) and x.value == 'cookies' for x in ast.walk(m_.ast)):
+                from .c18 import _str_consts
+                if m_.kind == 'stmt' and m_.ast is not None and 'cookies' in _str_consts(oc, m_.ast):
                     ok = True
     R.ob(rid, oc, oc.node, ok, text='a changed HTTP_* key drops the `cookies` memo', detail='' if ok else
          'the change listener does not drop the cached cookie jar when a header key changes', why=why, key_extra='listener-cookies')
